@@ -301,6 +301,10 @@ func genC15(t *Tape) (*SrvScenario, *c15Info, bool) {
 	sc.CutServerReads = t.ChooseAs("srvcut", 2) == 1
 	sc.LatencyMax = []time.Duration{0, 100 * time.Microsecond, 3 * time.Millisecond}[t.ChooseAs("lat", 3)]
 	sc.TimeoutWithData = t.ChooseAs("twd", 6) == 5
+	if !t.Has("cutmask") {
+		sc.ScratchReplies = t.Choose(4) == 0
+		sc.OwnAssembler = t.Choose(4) == 0
+	}
 	// some handlers take simulated time, so pipelined bytes pile up while a request is being served
 	for ci := range sc.Conns {
 		for ri := range sc.Conns[ci].Reqs {
